@@ -154,6 +154,7 @@ pub enum Job {
     Publish(Vec<(Vec<u8>, Vec<u8>)>),
     Lookup(Vec<u8>),
     History(Vec<u8>),
+    HistoryRecent(Vec<u8>, usize),
     Audit(u64, u64),
     EpochHash,
 }
@@ -177,6 +178,13 @@ async fn run_job<TC: Configuration>(dir: GDir<TC>, job: Job, pk: Vec<u8>, hashes
             Ok((p, e)) => {
                 let v = key_history_verify::<TC>(&pk, e.1, e.0, AkdLabel(l.clone()), p, HistoryVerificationParams::Default { history_params: HistoryParams::Complete });
                 Ok((e.0, e.1, v.is_ok(), format!("key_history {} -> {:?}", hb(&l), v.map(|r| r.len()))))
+            }
+            Err(e) => Err(format!("{:?}", e)),
+        }),
+        Job::HistoryRecent(l, n) => Outcome::Read(match dir.key_history(&AkdLabel(l.clone()), HistoryParams::MostRecent(n)).await {
+            Ok((p, e)) => {
+                let v = key_history_verify::<TC>(&pk, e.1, e.0, AkdLabel(l.clone()), p, HistoryVerificationParams::Default { history_params: HistoryParams::MostRecent(n) });
+                Ok((e.0, e.1, v.is_ok(), format!("key_history(most recent {}) {} -> {:?}", n, hb(&l), v.map(|r| r.iter().map(|x| x.version).collect::<Vec<_>>()))))
             }
             Err(e) => Err(format!("{:?}", e)),
         }),
@@ -358,6 +366,9 @@ async fn c13_case<TC: Configuration>(cx: &mut Cx, r: &mut Rng, reader_cached: bo
         1 => Job::History(labels[0].clone()),
         2 => Job::Audit(r.below(cur), cur),
         3 => Job::Lookup(labels[2].clone()),
+        5 => Job::HistoryRecent(labels[0].clone(), 1),
+        6 => Job::HistoryRecent(labels[0].clone(), 2),
+        7 => Job::HistoryRecent(labels[2].clone(), 1),
         _ => Job::EpochHash,
     };
     ctl.free_run.store(false, Ordering::SeqCst);
@@ -468,7 +479,7 @@ pub fn run(seed: u64, tier: u32, which: &str) -> Cx {
             let mut i = 0usize;
             for kind in 0..3u32 {
                 for lag in 0..4u64 {
-                    for job in 0..5u32 {
+                    for job in 0..8u32 {
                         let scheds = preempt_schedules(&mut r, 2, 26, per, true);
                         for s in scheds.iter() {
                             let (same, rc) = match kind { 0 => (true, false), 1 => (false, false), _ => (false, true) };
